@@ -164,14 +164,16 @@ public:
     constexpr auto insert(value_type&& value) -> pair<iterator, bool>
         requires(is_move_constructible_v<value_type>)
     {
+        auto cmp = key_compare{};
+        auto* p  = etl::lower_bound(_storage.begin(), _storage.end(), value, cmp);
+        if (p != _storage.end() and not cmp(value, *p)) {
+            return pair<iterator, bool>(p, false);
+        }
+
         if (!full()) {
-            auto cmp = key_compare{};
-            auto* p  = etl::lower_bound(_storage.begin(), _storage.end(), value, cmp);
-            if (p == _storage.end() || *(p) != value) {
-                _storage.push_back(etl::move(value));
-                rotate(p, _storage.end() - 1, _storage.end());
-                return make_pair(p, true);
-            }
+            _storage.push_back(etl::move(value));
+            rotate(p, _storage.end() - 1, _storage.end());
+            return make_pair(p, true);
         }
 
         return pair<iterator, bool>(nullptr, false);
